@@ -48,10 +48,9 @@ ASSUMPTIONS = [
     'well-formed topologies only: no node is at once a leaf target and a '
     'branch of another target (such combinations are skipped and counted)',
     'accumulate updater (default) so that colliding updates commute']
-BOUNDS = {'quick': '3 ports (process at the root) or 2 ports (process two levels down) x {dict port, scalar port, _path dictionary port '
-                   'with a renamed variable, glob port, port with a schema nested two levels} x 7 wirings over '
-                   '{A,B,inner,up,..}, process at depth 0 or 2, values in [-9,9]',
-          'thorough': '3 ports, same kinds and wirings, process depth 0..2'}
+BOUNDS = {'quick': 'first port: each of 7 kinds {dict, scalar (also on a top-level variable), _path dictionary (also with the empty path) with a renamed variable, glob, schema nested two levels, plain split dictionary, glob wired by a dictionary under *}; second port one of the first six kinds; a third port (dict or scalar) for the dict / _path dictionary / glob jobs at depth 0; 7 wirings over '
+                   '{A,B,inner,up,..}, process at depth 0 or 2, values in [-9,9], the update returned at two invocations; plus the glob-below-glob and scalar-set jobs',
+          'thorough': '3 ports of any kind, same wirings, process depth 0..2'}
 OUTSIDE = "'**' ports, _reduce, ill-formed topologies (undeclared ports are " \
           "rejected by the code)"
 
@@ -85,12 +84,28 @@ def jobs(tier):
     out = []
     for depth in ((0, 2) if q else (0, 1, 2)):
         for k0 in range(len(KINDS)):
+            if KINDS[k0] == 'pathdict' and depth == 0:
+                # the largest job, split by the empty-_path flag
+                for ep in (False, True):
+                    out.append(dict(
+                        name='d0-pathdict-%s' % ('emptypath' if ep
+                                                 else 'path'),
+                        depth=0, k0=k0, nports=3, emptypath=ep,
+                        other_kinds=6 if q else len(KINDS),
+                        third_kinds=2 if q else len(KINDS),
+                        budget_s=100 if q else 1500,
+                        crosscheck=0 if q else 20))
+                continue
             out.append(dict(name='d%d-%s' % (depth, KINDS[k0]), depth=depth,
-                            k0=k0, nports=3 if (not q or depth == 0) else 2,
+                            k0=k0, nports=3 if (not q or (
+                                depth == 0 and KINDS[k0] in (
+                                    'dict', 'pathdict', 'glob'))) else 2,
                             # quick: the later ports take one of the first
                             # six kinds (every kind is the first port of
                             # some job)
                             other_kinds=6 if q else len(KINDS),
+                            # ... and the third port is a dict or scalar port
+                            third_kinds=2 if q else len(KINDS),
                             budget_s=100 if q else 1500,
                             crosscheck=0 if q else 20))
     out.append(dict(name='scalar-set', part='scalar_set', budget_s=60))
@@ -242,7 +257,8 @@ def body(ctx, cfg):
     for i in range(cfg['nports']):
         port = 'p%d' % i
         kind = cfg['k0'] if i == 0 else ctx.choice(
-            'kind', cfg.get('other_kinds', len(KINDS)))
+            'kind', cfg.get('other_kinds', len(KINDS)) if i == 1
+            else cfg.get('third_kinds', len(KINDS)))
         w = PLAIN[ctx.choice('w', len(PLAIN))]
         if resolve(parent, w) is None or (
                 w[0] == '..' and resolve(parent, w[:2]) is None):
@@ -270,7 +286,8 @@ def body(ctx, cfg):
             ctx.goal('scalar port')
         elif KINDS[kind] == 'pathdict':
             schema[port] = {'v': {'_default': 0}, 'u': {'_default': 0}}
-            if i == 0 and ctx.flag('emptypath'):
+            if i == 0 and (cfg['emptypath'] if 'emptypath' in cfg
+                           else ctx.flag('emptypath')):
                 # '_path': () - the port is the store holding the process
                 w, base = (), parent
                 ren = ('B', 'u')
